@@ -4,9 +4,11 @@ PROP = {
     "level": "exploration",
     "level_text": "placeholder",
     "level_note": "placeholder",
-    "technique": "runtime monitoring: offline history checker over seeded channel scenarios",
+    "technique": "runtime monitoring",
     "assumptions": [],
     "lanes": [
         native("c06"),
+        miri("c06", seeds_q=6, seeds_t=240, scale=100, args={"histories": {"quick": 3, "thorough": 4}}),
+        san("tsan", "c06", scale=10),
     ],
 }
